@@ -50,7 +50,7 @@ def check_blocks(B, name, blocks, expected):
 
 class SumSubtotalsBlocks(Contract):
     name = MOD + ":SumSubtotals.blocks"
-    props = ("C04", "C15")
+    props = ("C04", "C15", "C02", "C03", "C11")
 
     def configs(self):
         return [dict(dc=dc, dr=dr) for dc in (False, True) for dr in (False, True)]
